@@ -1,8 +1,419 @@
-use crate::case::{Case, Outcome};
-use crate::keys::SimKey;
+//! C08 (sequential part): crash images + planted garbage (F-forge at rest); the start-up scan must
+//! be exact and the clean-up must remove exactly the reported garbage and nothing else.
 
-pub fn run_orphans<K: SimKey>(_case: &Case, _pseed: u64) -> Outcome {
+use std::collections::{BTreeMap, BTreeSet};
+use std::panic::{catch_unwind, AssertUnwindSafe};
+use std::sync::Arc;
+
+use crate::case::{Case, Outcome};
+use crate::decode;
+use crate::exec::{fail, panic_msg, Failure, ScanView, World};
+use crate::interpose::{self, with_sim};
+use crate::keys::SimKey;
+use crate::modes::{expected_scan, traced_run, CLOSE_OP, OPEN_OP};
+use crate::rng::{mix, Rng};
+use crate::seqrun::{finish_sim, fresh_dir, remove_dir};
+use crate::sim::{Disk, FileNode, Sim};
+
+fn put_file(d: &mut Disk, rel: &str, bytes: Vec<u8>) {
+    let parts: Vec<&str> = rel.split('/').collect();
+    for i in 1..parts.len() {
+        d.dirs.insert(parts[..i].join("/"));
+    }
+    let b = Arc::new(bytes);
+    d.inodes.push(FileNode { cache: b.clone(), durable: b, dirty: false, ever_cas: rel.starts_with("db/cas/") });
+    let i = d.inodes.len() - 1;
+    d.files.insert(rel.to_string(), i);
+}
+
+fn hex32(h: &[u8; 32]) -> String {
+    h.iter().map(|b| format!("{b:02x}")).collect()
+}
+
+/// what was planted, for the evidence probes
+#[derive(Default)]
+struct Planted {
+    orphans: usize,
+    ill_formed: usize,
+    shallow: usize,
+    deleted: usize,
+    resized: usize,
+    flipped: usize,
+    staging: usize,
+}
+
+fn plant(d: &mut Disk, rng: &mut Rng, referenced: &BTreeMap<[u8; 32], (u32, u64)>, verify: bool) -> Planted {
+    let mut p = Planted::default();
+    // well-formed names of arbitrary hashes: every byte position at an extreme value in turn, plus random
+    let n_orph = rng.below(4);
+    for _ in 0..n_orph {
+        let mut h = [0u8; 32];
+        h.copy_from_slice(&rng.bytes(32));
+        match rng.below(4) {
+            0 => {
+                let pos = rng.below(32) as usize;
+                h[pos] = *rng.pick(&[0x00u8, 0x0f, 0xf0, 0xff]);
+            }
+            1 => h = [*rng.pick(&[0x00u8, 0xff, 0x0f, 0xf0]); 32],
+            _ => {}
+        }
+        if referenced.contains_key(&h) {
+            continue;
+        }
+        let n = rng.below(50) as usize;
+        put_file(d, &format!("db/cas/{}", decode::cas_rel_path(&h)), rng.bytes(n));
+        p.orphans += 1;
+    }
+    // ill-formed names at blob depth
+    if rng.chance(1, 2) {
+        let mut h = [0u8; 32];
+        h.copy_from_slice(&rng.bytes(32));
+        let hex = hex32(&h);
+        let name = match rng.below(6) {
+            0 => format!("{}/{}/{}", &hex[0..2], &hex[2..4], &hex[4..63]),       // 59 chars: odd total
+            1 => format!("{}/{}/{}x", &hex[0..2], &hex[2..4], &hex[4..63]),      // non-hex character
+            2 => format!("{}/{}/{}0", &hex[0..2], &hex[2..4], &hex[4..]),        // 65 digits
+            3 => format!("{}/{}/{}", &hex[0..2], &hex[2..4], &hex[4..62]),       // 62 digits
+            4 => format!("{}/{}/{}", &hex[0..2], &hex[2..4], hex[4..].to_uppercase()), // not the canonical lower-case form
+            _ => format!("{}/{}/{}", &hex[0..3], &hex[3..4], &hex[4..]),         // 3/1/60 split: not the canonical layout
+        };
+        put_file(d, &format!("db/cas/{name}"), b"junk".to_vec());
+        p.ill_formed += 1;
+    }
+    // stray files directly under cas/ and cas/xx/
+    if rng.chance(1, 3) {
+        put_file(d, "db/cas/stray.txt", b"x".to_vec());
+        p.shallow += 1;
+    }
+    if rng.chance(1, 3) {
+        put_file(d, "db/cas/ab/stray", vec![]);
+        p.shallow += 1;
+    }
+    // damage referenced blobs
+    let refs: Vec<[u8; 32]> = referenced.keys().copied().collect();
+    if !refs.is_empty() && rng.chance(1, 2) {
+        let h = *rng.pick(&refs);
+        let path = format!("db/cas/{}", decode::cas_rel_path(&h));
+        if let Some(&i) = d.files.get(&path) {
+            match rng.below(4) {
+                0 => {
+                    d.files.remove(&path);
+                    p.deleted += 1;
+                }
+                1 => {
+                    let mut b = (*d.inodes[i].cache).clone();
+                    if b.is_empty() || rng.chance(1, 2) {
+                        b.push(7);
+                    } else {
+                        b.pop();
+                    }
+                    d.inodes[i].cache = Arc::new(b);
+                    p.resized += 1;
+                }
+                _ => {
+                    let mut b = (*d.inodes[i].cache).clone();
+                    if !b.is_empty() {
+                        let pos = rng.below(b.len() as u64) as usize;
+                        b[pos] ^= 0x40;
+                        d.inodes[i].cache = Arc::new(b);
+                        p.flipped += 1;
+                    }
+                }
+            }
+        }
+    }
+    let _ = verify;
+    // leftover staging files and a subdirectory in staging
+    let n_st = rng.below(3);
+    for j in 0..n_st {
+        let n = rng.below(20) as usize;
+        put_file(d, &format!("db/staging/.tmpPLANT{j}"), rng.bytes(n));
+        p.staging += 1;
+    }
+    if rng.chance(1, 4) {
+        put_file(d, "db/staging/subdir/inner", b"y".to_vec());
+    }
+    p
+}
+
+pub fn run_orphans<K: SimKey>(case: &Case, pseed: u64) -> Outcome {
     let mut out = Outcome::default();
-    out.harness_error = Some("mode not implemented".into());
+    let mut t = traced_run::<K>(case, &mut out, true);
+    if let Some(f) = t.failure.take() {
+        out.violation = Some(f);
+    }
+    let mut sim = std::mem::replace(&mut t.sim, Sim::new(std::path::Path::new("/nonexistent"), 0));
+    finish_sim(&mut out, &mut sim, &t.base, true);
+    remove_dir(&t.base);
+    if out.violation.is_some() || out.harness_error.is_some() {
+        return out;
+    }
+    let wl = &case.workload;
+    let mut rng = Rng::new(pseed);
+    // images: the final (clean) one and a few crash cuts
+    let mut picks: Vec<usize> = vec![t.snaps.len() - 1];
+    for _ in 0..3 {
+        picks.push(rng.below(t.snaps.len() as u64) as usize);
+    }
+    picks.sort();
+    picks.dedup();
+    for si in picks {
+        let snap = &t.snaps[si];
+        let n = t.models.len() - 1;
+        let allowed: Vec<BTreeMap<K, usize>> = if snap.op == OPEN_OP {
+            vec![t.models[0].clone()]
+        } else if snap.op == CLOSE_OP || snap.op as usize >= n {
+            vec![t.models[n].clone()]
+        } else {
+            vec![t.models[snap.op as usize].clone(), t.models[snap.op as usize + 1].clone()]
+        };
+        let tag = format!("image cut={} ({} {})", if snap.step == u64::MAX { "final".into() } else { snap.step.to_string() }, snap.call.name(), snap.role);
+        out.counters.crash_images += 1;
+        if let Err(mut f) = one_image::<K>(case, &snap.disk, &allowed, mix(pseed, si as u64), &tag, &mut out) {
+            f.op_index = wl.ops.len().saturating_sub(1);
+            out.violation = Some(f);
+            break;
+        }
+    }
     out
+}
+
+fn one_image<K: SimKey>(case: &Case, disk: &Disk, allowed: &[BTreeMap<K, usize>], seed: u64, tag: &str, out: &mut Outcome) -> Result<(), Failure> {
+    let wl = &case.workload;
+    let mut rng = Rng::new(seed);
+    let verify = rng.chance(2, 3);
+    // first: which model does this image recover to (unplanted)? needed to know what is referenced
+    let base0 = fresh_dir();
+    disk.materialise(&base0, &BTreeSet::new()).expect("materialise");
+    let mut s0 = Sim::new(&base0, 1);
+    s0.disk = Disk::from_dir(&base0).expect("image");
+    interpose::install(s0);
+    let mut w0 = World::<K>::new(&base0, wl);
+    w0.cfg.scan = false;
+    w0.cfg.fail_on_integrity = false;
+    let cfg0 = w0.cfg.clone();
+    let r0 = catch_unwind(AssertUnwindSafe(|| w0.open_raw(&cfg0)));
+    let items = match r0 {
+        Ok(Ok(())) => w0.observe_items().unwrap_or_default(),
+        _ => {
+            w0.close();
+            let _ = interpose::uninstall();
+            remove_dir(&base0);
+            // an image that does not even open is C03's business
+            return Err(fail(&["C03"], "recovery-failed", 0, format!("{tag}: the unplanted image does not open")));
+        }
+    };
+    w0.close();
+    let recovered_disk = interpose::uninstall().expect("sim").disk;
+    remove_dir(&base0);
+    let mut model = None;
+    for m in allowed {
+        w0.model = m.clone();
+        if w0.expected_observed().items == items {
+            model = Some(m.clone());
+            break;
+        }
+    }
+    let Some(model) = model else {
+        return Err(fail(&["C03"], "recovered-state", 0, format!("{tag}: recovered keys match none of the allowed states")));
+    };
+    w0.model = model.clone();
+    let referenced = w0.expected_blobs();
+
+    // plant garbage on the recovered (post-recovery) directory: recovery has already checkpointed
+    let mut img = recovered_disk.clone();
+    let planted = plant(&mut img, &mut rng, &referenced, verify);
+    *out.site_counts.entry("planted:orphans".into()).or_insert(0) += planted.orphans as u64;
+    *out.site_counts.entry("planted:ill-formed-names".into()).or_insert(0) += planted.ill_formed as u64;
+    *out.site_counts.entry("planted:shallow-stray".into()).or_insert(0) += planted.shallow as u64;
+    *out.site_counts.entry("planted:blob-deleted".into()).or_insert(0) += planted.deleted as u64;
+    *out.site_counts.entry("planted:blob-resized".into()).or_insert(0) += planted.resized as u64;
+    *out.site_counts.entry("planted:blob-flipped".into()).or_insert(0) += planted.flipped as u64;
+    *out.site_counts.entry("planted:staging".into()).or_insert(0) += planted.staging as u64;
+
+    let base = fresh_dir();
+    img.materialise(&base, &BTreeSet::new()).expect("materialise");
+    let mut sim = Sim::new(&base, 2);
+    sim.disk = Disk::from_dir(&base).expect("image");
+    sim.mon.cas_immutable = true;
+    sim.mon.own = case.property.clone();
+    interpose::install(sim);
+    let mut w = World::<K>::new(&base, wl);
+    w.cfg.scan = true;
+    w.cfg.verify = verify;
+    w.cfg.fail_on_integrity = false;
+    w.keep_stats = true;
+    w.exact_files = false;
+    w.model = model;
+    let cfg = w.cfg.clone();
+    let res = (|| -> Result<(), Failure> {
+        match catch_unwind(AssertUnwindSafe(|| w.open_raw(&cfg))) {
+            Err(p) => return Err(fail(&["C08"], "scan-panicked", 0, format!("{tag}: open_with_recover panicked on planted garbage: {}", panic_msg(p)))),
+            Ok(Err(e)) => return Err(fail(&["C08"], "scan-failed", 0, format!("{tag}: open_with_recover failed on planted garbage: {e}"))),
+            Ok(Ok(())) => {}
+        }
+        let scan = w.last_scan.clone().expect("scan enabled");
+        let exp = expected_scan(&w, verify);
+        if scan.dup_entries {
+            return Err(fail(&["C08"], "scan-duplicates", 0, format!("{tag}: a scan list contains duplicates: {scan:?}")));
+        }
+        if scan != exp {
+            return Err(fail(&["C08"], "scan-inexact", 0, format!("{tag} verify={verify}: scan differs from the checker's own directory/index comparison:\n{}", diff_scan(&scan, &exp))));
+        }
+        out.fingerprints.push(mix(
+            mix(scan.orphaned.len() as u64, scan.invalid.len() as u64),
+            mix(mix(scan.missing.len() as u64, scan.corrupted.len() as u64), mix(scan.staging.len() as u64, scan.total_blobs as u64)),
+        ));
+        // ---- clean-up ---------------------------------------------------------------------------
+        let before = with_sim(|s| crate::exec::disk_image(&s.disk));
+        let st = w.stats.take().expect("stats kept");
+        let which = rng.below(3);
+        let qdir = w.base.join("q");
+        let cleanup_res: Result<(), Failure> = (|| {
+            match which {
+                0 => {
+                    let r = catch_unwind(AssertUnwindSafe(|| interpose::enter(|| st.delete_orphans())));
+                    let r = match r {
+                        Err(p) => return Err(fail(&["C08"], "cleanup-panicked", 0, format!("{tag}: delete_orphans panicked: {}", panic_msg(p)))),
+                        Ok(Err(e)) => return Err(fail(&["C08"], "cleanup-failed", 0, format!("{tag}: delete_orphans failed: {e}"))),
+                        Ok(Ok(r)) => r,
+                    };
+                    if r.orphans_deleted != exp.orphaned.len() || r.invalid_files_removed != exp.invalid.len() || r.staging_files_removed != exp.staging.len() || r.orphans_skipped != 0 || r.orphans_quarantined != 0 || !r.errors.is_empty() {
+                        return Err(fail(&["C08"], "cleanup-counters", 0, format!("{tag}: delete_orphans reported {r:?}, expected deleted={} invalid={} staging={} and nothing else", exp.orphaned.len(), exp.invalid.len(), exp.staging.len())));
+                    }
+                    let after = with_sim(|s| crate::exec::disk_image(&s.disk));
+                    let mut want = before.clone();
+                    for h in &exp.orphaned {
+                        want.remove(&format!("db/cas/{}", decode::cas_rel_path(h)));
+                    }
+                    for p in exp.invalid.iter().chain(exp.staging.iter()) {
+                        want.remove(p);
+                    }
+                    if after != want {
+                        return Err(fail(&["C08"], "cleanup-effect", 0, format!("{tag}: after delete_orphans the directory is not 'before minus the reported garbage':\n{}", diff_image(&after, &want))));
+                    }
+                    Ok(())
+                }
+                1 => {
+                    let r = catch_unwind(AssertUnwindSafe(|| interpose::enter(|| st.quarantine_orphans(&qdir))));
+                    let r = match r {
+                        Err(p) => return Err(fail(&["C08"], "cleanup-panicked", 0, format!("{tag}: quarantine_orphans panicked: {}", panic_msg(p)))),
+                        Ok(Err(e)) => return Err(fail(&["C08"], "cleanup-failed", 0, format!("{tag}: quarantine_orphans failed: {e}"))),
+                        Ok(Ok(r)) => r,
+                    };
+                    if r.orphans_quarantined != exp.orphaned.len() || r.orphans_deleted != 0 || r.orphans_skipped != 0 || !r.errors.is_empty() {
+                        return Err(fail(&["C08"], "cleanup-counters", 0, format!("{tag}: quarantine_orphans reported {r:?}, expected quarantined={}", exp.orphaned.len())));
+                    }
+                    let after = with_sim(|s| crate::exec::disk_image(&s.disk));
+                    let mut want = before.clone();
+                    want.insert("q/".into(), (0, [0; 32]));
+                    for h in &exp.orphaned {
+                        if let Some(v) = want.remove(&format!("db/cas/{}", decode::cas_rel_path(h))) {
+                            want.insert(format!("q/{}", hex32(h)), v);
+                        }
+                    }
+                    if after != want {
+                        return Err(fail(&["C08"], "cleanup-effect", 0, format!("{tag}: after quarantine_orphans the orphans are not in the quarantine directory under their hex names with identical bytes (or something else changed):\n{}", diff_image(&after, &want))));
+                    }
+                    Ok(())
+                }
+                _ => {
+                    // delete_orphan(h) for one reported orphan and for one referenced blob (must refuse)
+                    let mut want = before.clone();
+                    if let Some(h) = exp.orphaned.iter().next() {
+                        match catch_unwind(AssertUnwindSafe(|| interpose::enter(|| st.delete_orphan(&cassadilia::BlobHash(*h))))) {
+                            Ok(Ok(true)) => {
+                                want.remove(&format!("db/cas/{}", decode::cas_rel_path(h)));
+                            }
+                            other => return Err(fail(&["C08"], "cleanup-counters", 0, format!("{tag}: delete_orphan(reported orphan) = {:?}, expected Ok(true)", other.map(|r| r.map_err(|e| e.to_string())).map_err(|_| "panic")))),
+                        }
+                    }
+                    if let Some(h) = w.expected_blobs().keys().next() {
+                        match catch_unwind(AssertUnwindSafe(|| interpose::enter(|| st.delete_orphan(&cassadilia::BlobHash(*h))))) {
+                            Ok(Ok(false)) => {}
+                            other => return Err(fail(&["C08"], "cleanup-harmed-live-data", 0, format!("{tag}: delete_orphan(referenced blob) = {:?}, expected Ok(false)", other.map(|r| r.map_err(|e| e.to_string())).map_err(|_| "panic")))),
+                        }
+                    }
+                    let after = with_sim(|s| crate::exec::disk_image(&s.disk));
+                    if after != want {
+                        return Err(fail(&["C08"], "cleanup-effect", 0, format!("{tag}: delete_orphan changed more or less than the one orphan:\n{}", diff_image(&after, &want))));
+                    }
+                    Ok(())
+                }
+            }
+        })();
+        interpose::enter(|| drop(st));
+        cleanup_res?;
+        // restoring the exactness of C07: after delete_orphans on an image without missing/corrupted blobs
+        if which == 0 && exp.missing.is_empty() && exp.corrupted.is_empty() && planted.resized == 0 && planted.flipped == 0 && planted.deleted == 0 {
+            // a subdirectory in staging/ is not a "leftover staging file": tolerate it only there
+            let ok_files = with_sim(|s| s.disk.list("db/staging/").iter().all(|(p, _)| p.starts_with("db/staging/subdir/")));
+            if ok_files && with_sim(|s| !s.disk.files.contains_key("db/staging/subdir/inner")) {
+                w.exact_files = true;
+                w.check_files(0).map_err(|mut f| {
+                    f.props = vec!["C08".into(), "C07".into()];
+                    f.message = format!("{tag}: after delete_orphans: {}", f.message);
+                    f
+                })?;
+            }
+        }
+        Ok(())
+    })();
+    w.readers.clear();
+    w.close();
+    let mut sim = interpose::uninstall().expect("sim");
+    out.counters.mutating_calls += sim.step;
+    out.counters.events += sim.events;
+    if let Some(e) = sim.harness_error.take() {
+        out.harness_error = Some(e);
+    } else if let Err(e) = sim.disk.fidelity(&base) {
+        out.harness_error = Some(format!("fidelity check failed (SimDisk != tmpfs): {e}"));
+    }
+    remove_dir(&base);
+    res?;
+    if let Some(v) = sim.mon.take_own().or_else(|| sim.mon.take_foreign()) {
+        return Err(Failure { props: vec![v.property], class: format!("{}:{}", v.monitor, v.class), op_index: 0, message: format!("{tag}: step {}: {}", v.step, v.message) });
+    }
+    Ok(())
+}
+
+fn diff_scan(got: &ScanView, exp: &ScanView) -> String {
+    let mut s = String::new();
+    let hs = |v: &BTreeSet<[u8; 32]>| v.iter().map(|h| hex32(h)[..12].to_string()).collect::<Vec<_>>();
+    if got.orphaned != exp.orphaned {
+        s += &format!("  orphaned: got {:?} expected {:?}\n", hs(&got.orphaned), hs(&exp.orphaned));
+    }
+    if got.invalid != exp.invalid {
+        s += &format!("  invalid: got {:?} expected {:?}\n", got.invalid, exp.invalid);
+    }
+    if got.missing != exp.missing {
+        s += &format!("  missing: got {:?} expected {:?}\n", hs(&got.missing), hs(&exp.missing));
+    }
+    if got.corrupted != exp.corrupted {
+        s += &format!("  corrupted: got {:?} expected {:?}\n", hs(&got.corrupted), hs(&exp.corrupted));
+    }
+    if got.staging != exp.staging {
+        s += &format!("  staging: got {:?} expected {:?}\n", got.staging, exp.staging);
+    }
+    if got.total_blobs != exp.total_blobs {
+        s += &format!("  total_blobs: got {} expected {}\n", got.total_blobs, exp.total_blobs);
+    }
+    s
+}
+
+fn diff_image(got: &BTreeMap<String, (usize, [u8; 32])>, want: &BTreeMap<String, (usize, [u8; 32])>) -> String {
+    let mut s = String::new();
+    for (k, v) in got {
+        match want.get(k) {
+            None => s += &format!("  unexpected: {k}\n"),
+            Some(w) if w != v => s += &format!("  content differs: {k}\n"),
+            _ => {}
+        }
+    }
+    for k in want.keys() {
+        if !got.contains_key(k) {
+            s += &format!("  missing: {k}\n");
+        }
+    }
+    s
 }
